@@ -120,7 +120,9 @@ class Generator:
         self.emit('#[allow(unused_imports)] use crate::vspec::*;\n')
         mc = self.contract_for(rel + '::@module')
         if not top and not (mc and 'nobroadcast' in mc.attrs):
-            self.emit('broadcast use {crate::vfrom::group_from, crate::std_specs::axiom_into_iter_seq_slice};\n')
+            extra_b = [a[len('broadcast:'):] for a in (mc.attrs if mc else []) if a.startswith('broadcast:')]
+            self.emit('broadcast use {%s};\n' % ', '.join(
+                ['crate::vfrom::group_from', 'crate::std_specs::axiom_into_iter_seq_slice'] + extra_b))
         if mc and mc.ghost:
             self.emit(mc.ghost, 'spec', src_file=mc.src)
         for it in items:
